@@ -1,6 +1,7 @@
 // C05 harness: gstuff receivers on arbitrary byte streams (memory safety,
 // soundness, resynchronisation) against the Lean model IgrisModel/C04+C05.
 #include "gstuff/common.h"
+#include "gstuff/sess.h"
 
 // Soundness oracle: at every NEWPACKAGE the delivered bytes must be the
 // unescaped bytes since the last start marker, minus a trailing matching CRC-8.
@@ -40,6 +41,10 @@ static void run_op(const std::vector<std::string> &w, const std::string &, out &
 {
     const std::string &op = w[0];
     if (op == "reset") { o.result = "ok"; return; }
+    if (op == "seq") return run_seq(w, o);
+    if (op == "sizes") return run_sizes(o);
+    if (op == "premain") { run_premain(o); return; }
+    if (op == "longnoise") return run_longnoise(w, o);
     if (op == "ctx")
     {
         alphabet a = alpha_of(gstuff_context()), b = alpha_of(gstuff_context_v0());
@@ -195,10 +200,113 @@ static bytes ref_frame(const alphabet &a, const bytes &p)
     return f;
 }
 
+static alphabet rnd_alphabet(rng &r)
+{
+    while (true)
+    {
+        alphabet a;
+        a.start = (uint8_t)r.next();
+        a.stop = r.chance(40) ? a.start : (uint8_t)r.next();
+        a.stub = (uint8_t)r.next();
+        a.s_start = (uint8_t)r.next();
+        a.s_stop = (a.start == a.stop && r.chance(50)) ? a.s_start : (uint8_t)r.next();
+        a.s_stub = (uint8_t)r.next();
+        bool ok = a.stub != a.start && a.stub != a.stop && a.s_start != a.start && a.s_start != a.stop &&
+                  a.s_stop != a.start && a.s_stop != a.stop && a.s_stub != a.start && a.s_stub != a.stop &&
+                  a.s_stub != a.s_start && a.s_stub != a.s_stop && (a.start == a.stop || a.s_stop != a.s_start);
+        if (ok) return a;
+    }
+}
+
+// RECEIVER SESSIONS: ONE gstuff_autorecv object (and ONE legacy struct) on which a sequence of calls is made:
+// garbage, frames, init / setbuf with another capacity in the middle of a frame, reset() in the middle of a
+// frame, the context replaced between packets (object re-constructed in place from the mutated context),
+// the same receive block all the time
+static void gen_sessions(rng &r, bool th)
+{
+    alphabet v1 = alpha_of(gstuff_context()), v0 = alpha_of(gstuff_context_v0()), lg = alpha_leg();
+    for (int rep = 0; rep < (th ? 2500 : 300); rep++)
+    {
+        size_t blkcap = 24, maxn = 14, outcap = 2 * maxn + 4;
+        std::string line = "seq " + std::to_string(outcap) + " " + std::to_string(blkcap);
+        int nseg = (int)r.range(2, 5);
+        alphabet a = v1;
+        bool have_recv = false;
+        for (int sg = 0; sg < nseg; sg++)
+        {
+            if (sg == 0 || r.chance(60))
+            {
+                alphabet b = r.chance(30) ? v1 : r.chance(45) ? v0 : rnd_alphabet(r);
+                if (!(sg == 0 && same_alpha(b, v1))) line += " A" + alpha_hex(b);
+                a = b;
+                line += " N";
+                have_recv = false;
+            }
+            if (!have_recv || r.chance(40))
+            {
+                line += (r.chance(50) ? " I" : " S") + std::to_string(r.chance(10) ? r.below(3) : r.range(4, (int)blkcap));
+                have_recv = true;
+            }
+            int kind = (int)r.below(6);
+            bytes p = rnd_payload(r, a, r.below(maxn + 1));
+            bytes f = ref_frame(a, p);
+            if (kind == 0)        // garbage, then the frame twice
+                line += " F" + hex(rnd_noise(r, a, 1 + r.below(10))) + " E" + hex(p) + " F F";
+            else if (kind == 1)   // part of a frame, init with another capacity, then whole frames
+                line += " F" + hex(bytes(f.begin(), f.begin() + 1 + r.below(f.size() - 1))) + (r.chance(50) ? " I" : " S") +
+                        std::to_string(r.range(2, (int)blkcap)) + " E" + hex(p) + " F F";
+            else if (kind == 2)   // reset() in the middle of a frame
+                { size_t c = 1 + r.below(f.size() - 1); line += " F" + hex(bytes(f.begin(), f.begin() + c)) + " R F" + hex(bytes(f.begin() + c, f.end())) + " E" + hex(p) + " F"; }
+            else if (kind == 3)   // frames of another alphabet (the receiver keeps its copy of the context)
+                { alphabet o = r.chance(50) ? v0 : rnd_alphabet(r); line += " F" + hex(ref_frame(o, p)) + " E" + hex(p) + " F F"; }
+            else if (kind == 4)   // receiver used before any buffer was attached, then attached
+                line += " N F" + hex(f) + " I" + std::to_string(p.size() + 2) + " E" + hex(p) + " F";
+            else                  // over-long frame, then a fitting one
+                { bytes big = rnd_payload(r, a, blkcap + r.below(4)); line += " F" + hex(ref_frame(a, big)) + " E" + hex(p) + " F"; }
+            if (kind == 4) have_recv = true;
+        }
+        // legacy receiver: one struct, setbuf / reset in the middle of a frame
+        if (r.chance(60))
+        {
+            bytes p = rnd_payload(r, lg, r.below(maxn + 1));
+            bytes f = ref_frame(lg, p);
+            size_t c = 1 + r.below(f.size() - 1);
+            int kind = (int)r.below(4);
+            if (kind == 0) line += " lf" + hex(f);                               // zero-initialised struct, no setbuf at all
+            line += " ls" + std::to_string(r.chance(10) ? r.below(3) : r.range(4, (int)blkcap));
+            if (kind == 1) line += " lf" + hex(bytes(f.begin(), f.begin() + c)) + " ls" + std::to_string(r.range(2, (int)blkcap)) + " G" + hex(p) + " lf lf";
+            else if (kind == 2) line += " lf" + hex(bytes(f.begin(), f.begin() + c)) + " lr lf" + hex(bytes(f.begin() + c, f.end())) + " G" + hex(p) + " lf";
+            else line += " lf" + hex(rnd_noise(r, lg, r.below(10))) + " G" + hex(p) + " lf lf";
+        }
+        puts(line.c_str());
+    }
+}
+
 static void gen(rng &r, const std::string &tier)
 {
     bool th = tier == "thorough";
     puts("ctx");
+    puts("sizes");
+    puts("premain");
+    gen_sessions(r, th);
+    // capacities 255 / 256 / 257 with a payload that fits exactly (n = cap - 2) and one that is a byte too long,
+    // twice in a row on the same receiver object; configurable (v1, v0) and legacy
+    {
+        alphabet v1 = alpha_of(gstuff_context()), v0 = alpha_of(gstuff_context_v0()), lg = alpha_leg();
+        for (int cap : {255, 256, 257})
+            for (int n : {cap - 2, cap - 1})
+            {
+                std::string head = "seq " + std::to_string(2 * n + 4) + " 260";
+                printf("%s N I%d E%s F F\n", head.c_str(), cap, hex(rnd_payload(r, v1, (size_t)n)).c_str());
+                printf("%s A%s N S%d E%s F F\n", head.c_str(), alpha_hex(v0).c_str(), cap, hex(rnd_payload(r, v0, (size_t)n)).c_str());
+                printf("%s G%s ls%d lf lf\n", head.c_str(), hex(rnd_payload(r, lg, (size_t)n)).c_str(), cap);
+            }
+    }
+    for (auto c : {"v1", "v0", "leg"})
+    {
+        printf("longnoise %s %d %d %d\n", c, (int)r.range(4, 40), 307200 + (int)r.below(64), (int)r.below(1000000));
+        printf("longnoise %s %d %d %d\n", c, (int)r.below(2), 70000, (int)r.below(1000000));
+    }
     for (int ci = 0; ci < 3; ci++)
     {
         const char *codec = CODECS[ci];
